@@ -19,17 +19,17 @@ type watchState struct {
 	subClosed  bool
 	fillPushed int
 	spawned    bool
-	name     string
-	req      specWatchReq
-	prefix   string
-	ch       <-chan []*proto.Event
-	err      error
-	cancel   context.CancelFunc
-	returned bool
-	received []specEvent
-	closed   bool
-	launched bool
-	start    uint64 // effective start revision (list-then-watch: header of the list + 1)
+	name       string
+	req        specWatchReq
+	prefix     string
+	ch         <-chan []*proto.Event
+	err        error
+	cancel     context.CancelFunc
+	returned   bool
+	received   []specEvent
+	closed     bool
+	launched   bool
+	start      uint64 // effective start revision (list-then-watch: header of the list + 1)
 }
 
 func (rs *runState) watchReqs() map[string]specWatchReq {
